@@ -165,7 +165,28 @@ def try_resume(R, prog):
                describe=lambda ev: 'waiter demand read under this->splock: %s' % ev.show()[:60], min_sites=2, what='semaphore_count use')
 
 
+def wake_discipline(R, prog):
+    """In try_resume: (a) the waiter that is woken was obtained in a way that proves it is still queued - through ScopedLockHead
+    (lock the head, then re-validate it), or by walking the queue under the queue lock; a head pointer read without the queue lock
+    may have timed out / been interrupted meanwhile, because a waiter leaves the queue under its thread lock and the queue lock, not
+    under splock.  (b) prelocked_thread_interrupt() -> thread::dequeue_ready_atomic() takes the wait-queue lock itself, so it must not
+    be called with that (non-recursive) lock held."""
+    G = K.build(R, prog, 'photon::semaphore::try_resume')
+    res = an.run(G, [an.LockTracker()], init=frozenset(['L:this->splock']))
+    wake = lambda ev: ev.kind == 'call' and ev.callee() == 'photon::prelocked_thread_interrupt'
+    qlock = lambda st: an.has_lock(st, 'this->q.lock')
+    K.check_at(R, P + '.K2', G, res, wake,
+               require=lambda st, ev: any(k.startswith('LH:') for k in st) or qlock(st),
+               key_fn=lambda ev: P + '.K2:photon::semaphore::try_resume:woken-waiter-is-still-queued',
+               describe=lambda ev: 'the waiter being woken was obtained through ScopedLockHead (locked, then re-validated as head) or under the queue lock', min_sites=2, what='prelocked_thread_interrupt')
+    K.check_at(R, P + '.K5', G, res, wake,
+               require=lambda st, ev: not qlock(st),
+               key_fn=lambda ev: P + '.K5:photon::semaphore::try_resume:no-wake-under-the-queue-lock',
+               describe=lambda ev: 'prelocked_thread_interrupt() dequeues the waiter under the wait-queue spinlock: calling it with that lock held spins forever', min_sites=2, what='prelocked_thread_interrupt')
+
+
 def run(R, prog, tier):
+    R.guard(wake_discipline, R, prog)
     k1(R, prog)
     R.guard(writers, R, prog)
     R.guard(try_subtract, R, prog)
